@@ -20,8 +20,9 @@ ASSUMPTIONS = [
     'str.lower() is the uninterpreted function lower_s (the engine model of .lower()); keyword comparisons of the '
     'specification use the same function, i.e. "case-insensitive" is taken to mean "equal after .lower()"',
     'int(text) is modelled by the uninterpreted pair int_literal_ok_s / int_literal_val_s',
-    'list values held in the option map are modelled by value: aliasing between an option list and other '
-    'references to the same list object (e.g. the shallow copy taken from a previous config) is not modelled',
+    'list values held in the option map are modelled by value; aliasing with the previous config (shallow copies '
+    'in __init__/get_options) is covered by forbidding in-place list mutation in the accumulators (ghost event '
+    'pyobj_inplace_mutation), not by modelling object identity',
     'socket.AF_UNSPEC / AF_INET / AF_INET6 are the integer values of the checking host (read from the socket module)',
 ]
 
@@ -219,6 +220,14 @@ def stays_a_list(c):
     return z3.And(z3.Select(n.dom, k), P.is_py_strlist(z3.Select(n.val, k)))
 
 
+def no_inplace_mutation(c):
+    """SSHConfig.__init__ / get_options take SHALLOW copies of the previous config's option map, so every list found
+    in _options may be the very object held by the previous config (and by the base options it came from).  An
+    accumulator must therefore build a new list; appending in place would rewrite the previous config.  Lists are
+    by-value in this model, so the property is stated on the engine's ghost event for in-place list mutation."""
+    return z3.BoolVal(len(c.events('pyobj_inplace_mutation')) == 0)
+
+
 append_string = Spec(
     PROP, 'config', 'SSHConfig._append_string', self_class='SSHConfig', classes=CLASSES,
     params={'option': 'str', 'args': 'seq[str]'},
@@ -226,7 +235,8 @@ append_string = Spec(
     ensures=[('accumulates',
               accumulates(lambda c: z3.If(l0(c) == S('none'), z3.Empty(SEQSTR), z3.Unit(args0(c))))),
              ('stays-a-list', stays_a_list), ('consumes-its-arguments', consumed(1)),
-             ('other-state-kept', other_fields_kept)])
+             ('other-state-kept', other_fields_kept)],
+    always=[('previous-config-lists-not-mutated', no_inplace_mutation)])
 
 append_string_list = Spec(
     PROP, 'config', 'SSHConfig._append_string_list', self_class='SSHConfig', classes=CLASSES,
@@ -235,7 +245,8 @@ append_string_list = Spec(
     ensures=[('accumulates', accumulates(lambda c: c.arg('args'))),
              ('stays-a-list', stays_a_list),
              ('consumes-its-arguments', consumed(lambda c: z3.Length(c.arg('args')))),
-             ('other-state-kept', other_fields_kept)])
+             ('other-state-kept', other_fields_kept)],
+    always=[('previous-config-lists-not-mutated', no_inplace_mutation)])
 
 
 # ------------------------------------------------------------------ server: the remote user name and %u
